@@ -1,11 +1,11 @@
 CONSTANTS
   Level = 1
-  MaxSteps = 4
+  MaxSteps = 6
   Focus = 1
   Ranges <- AllRanges
   Rows <- RowsA
   DEV_LastTickOverwrittenByRefresh2 = FALSE
-  DEV_LateWriteKeepsLastTick = FALSE
+  DEV_LateWriteKeepsLastTick = TRUE
   LateOps = TRUE
   DEV_ShareWithoutOwnLiquidity = FALSE
 SPECIFICATION Spec
